@@ -622,6 +622,28 @@ def trusted_base(runs, props, pcfg):
         for line, k in u.gen.trusted_scan:
             kinds[k] = kinds.get(k, 0) + 1
         out.append('mechanical scan of generated unit %s: ' % u.unit + ', '.join('%s x%d' % (k.strip('( '), v) for k, v in sorted(kinds.items())))
+        # name every function left unverified or given an assumed specification (the text that follows the marker)
+        lines = u.gen.text.split('\n')
+        names = []
+        for line, k in u.gen.trusted_scan:
+            if k not in ('external_body', 'assume_specification'): continue
+            txt = ' '.join(x.strip() for x in lines[line - 1:line + 2])
+            if k == 'assume_specification':
+                i0 = txt.find('assume_specification'); i1 = txt.find('[', i0)
+                # generics `<'a, T, const N: usize>` may precede the bracket; the target itself may contain brackets
+                if i0 >= 0 and i1 >= 0:
+                    depth = 0; j = i1
+                    while j < len(txt):
+                        if txt[j] == '[': depth += 1
+                        elif txt[j] == ']':
+                            depth -= 1
+                            if depth == 0: break
+                        j += 1
+                    names.append('assumed specification: ' + re.sub(r'\s+', ' ', txt[i1 + 1:j]).strip())
+            else:
+                m = re.search(r'external_body\]\s*(?:/\*@e\*/)?\s*(?:pub(?:\([a-z]+\))?\s+)?(?:broadcast\s+)?(?:proof\s+|exec\s+)?(?:fn|struct)\s+([A-Za-z0-9_]+)', txt)
+                if m: names.append('not verified (external_body): ' + m.group(1))
+        for n_ in sorted(set(names)): out.append('unit %s: %s' % (u.unit, n_))
     return out
 
 if __name__ == '__main__':
